@@ -65,6 +65,11 @@ def term_rule_mass(p, mono):
 
 def static_clauses(ctx, st, pt, p):
     rng = ctx.rng
+    if p.isotope and any(m.named and m.comp is None for m in p.all_mods()):
+        # a vocabulary entry with a mass but no composition cannot be weighed under an isotope label (both forms raise):
+        # not a statement about rule form vs explicit form
+        ctx.note('skipped_named_modification_without_composition_under_a_label')
+        return
     q = rp.explicit_static(p)
     t_rule, t_expl = rp.write(p), rp.write(q)
     ctx.begin({'pep': rp.to_json(p), 'rule_form': t_rule, 'explicit_form': t_expl, 'clause': 'static'})
@@ -276,7 +281,9 @@ def run(ctx):
     pt = install(ctx, st)
     ctx.enable_disturb(pt, 0.03)     # other legitimate library calls interleaved between cases (vf.gen.disturb)
     w = {'int': 2, 'float': 2, 'formula': 3, 'unimod-name': 3, 'unimod-acc': 1}
-    cfg_s = gp.GenCfg(min_len=1, max_len=20, letters=LETTERS, weights=w, static_weights=w, p_static=1.0,
+    # rules also draw PSI-MOD names (long descriptive names, some containing words the notation uses: 'N-term', ',')
+    ws = dict(w, **{'psimod-name': 1})
+    cfg_s = gp.GenCfg(min_len=1, max_len=20, letters=LETTERS, weights=w, static_weights=ws, p_static=1.0,
                       p_static_term=0.45, max_static_rules=3, p_isotope=0.2, labels=LABELS, p_interval=0.1,
                       p_unknown=0.1, p_charge=0.0, p_labile=0.15, p_tag=0.0, p_alt=0.0, p_mult=0.05, p_res=0.25)
     cfg_l = gp.GenCfg(min_len=1, max_len=20, letters=LETTERS, weights={'int': 1, 'float': 2, 'formula': 3,
